@@ -145,6 +145,25 @@ func (p *Path) unsupported(fr *frame, pos token.Pos, what string) {
 	p.abort("inconclusive", "unsupported: "+what+" at "+p.where(fr, pos))
 }
 
+// rp resolves a maybe-nil pointer (symbolic nil-ness) into a definite one by forking.
+func (p *Path) rp(fr *frame, v Value, pos token.Pos) PtrV {
+	ptr := v.(PtrV)
+	if ptr.Nil == nil || ptr.O == nil {
+		return PtrV{O: ptr.O, Path: ptr.Path}
+	}
+	if p.forkBool(ptr.Nil, fr, pos) {
+		return PtrV{}
+	}
+	return PtrV{O: ptr.O, Path: ptr.Path}
+}
+
+func (p *Path) rv(fr *frame, v Value, pos token.Pos) Value {
+	if ptr, ok := v.(PtrV); ok && ptr.Nil != nil {
+		return p.rp(fr, ptr, pos)
+	}
+	return v
+}
+
 // ---- calls ----
 
 func (p *Path) callValue(fr *frame, fv Value, args []Value, pos token.Pos) Value {
@@ -170,6 +189,17 @@ func (p *Path) callFn(fr *frame, fn *ssa.Function, args []Value, env []Value, po
 		return p.callSSA(fr, repl, args, nil)
 	}
 	if ifn, ok := p.E.intrinsicFor(fn); ok {
+		if _, isAPI := p.E.apiFuncs[fn]; !isAPI || !apiKeepsSymbolicNil[fn.Name()] {
+			for i, a := range args {
+				if iv, ok := a.(IfaceV); ok {
+					if pv, ok := iv.V.(PtrV); ok && pv.Nil != nil {
+						args[i] = IfaceV{T: iv.T, V: p.rp(fr, pv, pos)}
+					}
+					continue
+				}
+				args[i] = p.rv(fr, a, pos)
+			}
+		}
 		return ifn(p, fr, fn, args, pos)
 	}
 	if fn.Blocks == nil {
@@ -352,6 +382,7 @@ func (p *Path) visit(fr *frame, instr ssa.Instruction) cont {
 		fr.env[in] = p.convert(fr, in.X.Type(), in.Type(), fr.get(in.X), in.Pos())
 	case *ssa.SliceToArrayPointer:
 		s := fr.get(in.X).(SliceV)
+		_ = s
 		n := int(in.Type().(*types.Pointer).Elem().Underlying().(*types.Array).Len())
 		if s.Len < n {
 			p.goPanic(fr, in.Pos(), "slice to array pointer: length too short")
@@ -395,7 +426,7 @@ func (p *Path) visit(fr *frame, instr ssa.Instruction) cont {
 	case *ssa.Send:
 		p.events = append(p.events, "chan-send at "+p.where(fr, in.Pos()))
 	case *ssa.Store:
-		ptr := fr.get(in.Addr).(PtrV)
+		ptr := p.rp(fr, fr.get(in.Addr), in.Pos())
 		if ptr.IsNil() {
 			p.goPanic(fr, in.Pos(), "nil pointer dereference (store)")
 		}
@@ -403,7 +434,13 @@ func (p *Path) visit(fr *frame, instr ssa.Instruction) cont {
 	case *ssa.If:
 		c := fr.get(in.Cond).(*Term)
 		succ := 1
-		if p.forkBool(c, fr, in.Pos()) {
+		ipos := in.Cond.Pos()
+		if ipos == token.NoPos && !c.c {
+			for k := len(fr.block.Instrs) - 1; k >= 0 && ipos == token.NoPos; k-- {
+				ipos = fr.block.Instrs[k].Pos()
+			}
+		}
+		if p.forkBool(c, fr, ipos) {
 			succ = 0
 		}
 		fr.prev, fr.block = fr.block, fr.block.Succs[succ]
@@ -441,7 +478,7 @@ func (p *Path) visit(fr *frame, instr ssa.Instruction) cont {
 	case *ssa.Next:
 		fr.env[in] = p.nextIter(fr, fr.get(in.Iter), in)
 	case *ssa.FieldAddr:
-		ptr := fr.get(in.X).(PtrV)
+		ptr := p.rp(fr, fr.get(in.X), in.Pos())
 		if ptr.IsNil() {
 			p.goPanic(fr, in.Pos(), "nil pointer dereference (field "+fieldName(in.X.Type(), in.Field)+")")
 		}
@@ -549,7 +586,7 @@ func (p *Path) concInt(fr *frame, t *Term, typ types.Type, lo, hi int, pos token
 }
 
 func (p *Path) sliceOp(fr *frame, in *ssa.Slice) Value {
-	x := fr.get(in.X)
+	x := p.rv(fr, fr.get(in.X), in.Pos())
 	var lo, hi, mx = -1, -1, -1
 	bound := func(v ssa.Value, lim int) int {
 		t := fr.get(v).(*Term)
@@ -697,7 +734,7 @@ func (p *Path) indexTerm(fr *frame, t *Term, typ types.Type, n int, pos token.Po
 }
 
 func (p *Path) indexAddr(fr *frame, in *ssa.IndexAddr) Value {
-	x := fr.get(in.X)
+	x := p.rv(fr, fr.get(in.X), in.Pos())
 	idx := fr.get(in.Index).(*Term)
 	switch s := x.(type) {
 	case SliceV:
@@ -809,7 +846,7 @@ func (p *Path) unop(fr *frame, in *ssa.UnOp) Value {
 	x := fr.get(in.X)
 	switch in.Op {
 	case token.MUL: // load
-		ptr := x.(PtrV)
+		ptr := p.rp(fr, x, in.Pos())
 		if ptr.IsNil() {
 			p.goPanic(fr, in.Pos(), "nil pointer dereference (load)")
 		}
